@@ -84,6 +84,27 @@ def advertised_chunks(chk, repo):
         chk.require(out == want, "C06-Q10", where, f"{n} lines in chunks of {rpc}: encoding {want}",
                     f"a pixel variable of {n} lines whose array is chunked by {rpc} lines advertises {out}, expected {want}: the advertised chunk size is not min(records_per_chunk, lines) for this size",
                     key="advertised:" + ("single-chunk" if rpc >= n else "chunked"), sample={"lines": n, "chunk": rpc})
+    # the stored chunk size itself: the Array is built by the package's own constructor code (vlib/loadmodel.py) from the
+    # caller's option, then advertised through the same chain
+    from ..loadmodel import _build, image_bytes, Load
+    for rpc, n in ((3, 7), (7, 7), (8, 7), (1, 1), (5000, 6), (1, 4), (4, 9)):
+        content, ranges = image_bytes(n, 10)
+        built = _build(repo, Load(), content, ranges, n, 10, rpc, "IU2")
+        if isinstance(built, str):
+            if built.startswith("raised"):
+                chk.fail("C06-Q10", f"{am.relpath}:Array", f"an Array of {n} lines cannot be built with records_per_chunk={rpc}: {built[:160]}", key="advertised:built:" + ("single-chunk" if rpc >= n else "chunked"))
+                continue
+            raise AnalysisError(f"{am.relpath}:Array: the constructor cannot be evaluated for {n} lines, records_per_chunk={rpc}: {built[:160]}")
+        I, arr = built
+        var = Obj("Variable", OrderedDict(dims=ListLit([Const("rows"), Const("columns")]), data=arr, attrs=DictS()), klass=(vcls.mod, vcls.node))
+        try:
+            out = from_shape(I.call(I.lookup("extract_encoding", I.module_scope(xm)), [var], {}))
+        except (ShapeError, _Raise, Undecided) as e:
+            raise AnalysisError(f"{where}: cannot be evaluated on a variable around a constructed Array ({n} lines, records_per_chunk={rpc}): {str(e)[:120]}")
+        want = {"preferred_chunksizes": {"rows": min(rpc, n), "columns": 5}}
+        chk.require(out == want, "C06-Q10", f"{am.relpath}:Array -> {xm.relpath}:extract_encoding", f"Array(records_per_chunk={rpc}) over {n} lines advertises {want}",
+                    f"an image of {n} lines opened with records_per_chunk={rpc} advertises {out}, expected {want}: the advertised chunk size is not min(records_per_chunk, lines)",
+                    key="advertised:built:" + ("single-chunk" if rpc >= n else "chunked"), sample={"lines": n, "records_per_chunk": rpc})
     I = Interp(repo)
     plain = Obj("Variable", OrderedDict(dims=ListLit([Const("rows")]), data=ListLit([Const(1)]), attrs=DictS()), klass=(vcls.mod, vcls.node))
     try:
@@ -163,13 +184,8 @@ def q2(chk, repo):
         if any(x.key.endswith(":normalize_chunksize") for x in resolve_callees(repo, pi, c.func)):
             call = c
     if call is None:
-        # inlined or removed: the value stored on the integer path must still depend on both operands
-        stores = sorted((n for n in pi.own_nodes() if isinstance(n, ast.Assign) and norm(n.targets[0]) == "self.records_per_chunk"), key=lambda n: n.lineno)
-        final = stores[-1] if stores else None
-        txt = norm(final.value) if final is not None else ""
-        ok = final is not None and "self.records_per_chunk" in txt and "self.shape[0]" in txt and ("min(" in txt)
-        chk.require(ok, "C06-Q2", f"{am.relpath}:Array.__post_init__", f"integer path stores {txt} (min of the option and the number of lines)",
-                    f"the integer path stores {txt or 'nothing'}: the advertised chunk size no longer is min(records_per_chunk, lines)", key="post_init:normalize")
+        # inlined, moved into a helper or removed: what the constructor stores is decided by evaluation (C06-Q10)
+        raise AnalysisError(f"{am.relpath}:Array.__post_init__: normalize_chunksize is not called here; the stored chunk size is decided by building Arrays (C06-Q10)")
     else:
         b, _ = bind_args(resolve_callees(repo, pi, call.func)[0], call)
         st = call
